@@ -48,6 +48,11 @@ def check(ctx):
                "loop for the same resource/day with the balancing selector", floor=3)
     ctx.guarded(o, lambda o: sched_fill.encoding(ctx, o, ps))
 
+    o = ctx.ob('release_day_has_no_foreign_bound', 'R8',
+               "the release day of an unfixed leaf is the latest of project start / prerequisite ends, the clock and the task's OWN "
+               "min_start: no constraint of another task (e.g. the min_start of an enclosing group) is added to it", floor=1)
+    ctx.guarded(o, lambda o: release_bound(ctx, o, ps, pt))
+
     o = ctx.ob('traversal_order', 'R8',
                "roots are scheduled in list order, dependencies then children in list order: no reversed/sorted/set wrapper in the "
                "forward traversal (capacity is handed out in WBS order)", floor=3)
@@ -237,3 +242,61 @@ def search_from_release(ctx, o, S):
                                             f"release date and that day are never examined for this task, so free capacity before it stays idle")
     if not bad:
         o.site(f, f.node, f"search day {', '.join(sorted(dvars))} is derived from the release date and the calendar only")
+
+
+def release_bound(ctx, o, ps: PassShape, pt):
+    """operands of the `max(..)` that gives an unfixed leaf its release day: besides the prerequisite term, the bound, the clock
+    and the task's own min_start, an operand that reads a field of ANOTHER task (a loop / comprehension variable ranging over
+    the ancestors or the parent) delays the task although nothing the property names holds it back."""
+    found = 0
+    for st, tgt, val, reg in ps.stores('start'):
+        if reg['milestone'] is not False or reg['leaf'] is not True:
+            continue
+        v = ps.ex.expand(val, ps.cfg.node_of(st))
+        calls = [x for x in ast.walk(v) if isinstance(x, ast.Call) and isinstance(x.func, ast.Name) and x.func.id == 'max']
+        for mx in calls:
+            ops = []
+            for a in mx.args:
+                if isinstance(a, ast.Starred):
+                    inner = a.value
+                    if isinstance(inner, ast.Name):
+                        syn = facts.accumulated_list(ps.f, inner.id)
+                        inner = syn if syn is not None else ps.ex.expand(inner, ps.cfg.node_of(st))
+                    ops.append(('star', a, inner))
+                else:
+                    ops.append(('plain', a, a))
+            for kind, a, e in ops:
+                foreign = None
+                # comprehension variables ranging over other tasks
+                for n in ast.walk(e):
+                    if isinstance(n, (ast.ListComp, ast.GeneratorExp, ast.SetComp)):
+                        for g in n.generators:
+                            if isinstance(g.target, ast.Name) and any(isinstance(x, ast.Attribute) and x.attr in ('all_parents', 'parent') for x in ast.walk(g.iter)):
+                                reads = [x for x in ast.walk(n.elt) if isinstance(x, ast.Attribute) and isinstance(x.value, ast.Name) and x.value.id == g.target.id
+                                         and x.attr in ('min_start', 'start', 'end')]
+                                if reads:
+                                    foreign = (reads[0], g.iter)
+                    if isinstance(n, ast.Attribute) and n.attr in ('min_start',) and not (isinstance(n.value, ast.Name) and n.value.id == ps.task):
+                        pth = n.value
+                        if isinstance(pth, ast.Attribute) and pth.attr == 'parent' and isinstance(pth.value, ast.Name) and pth.value.id == ps.task:
+                            foreign = foreign or (n, pth)
+                if kind == 'star' and foreign is None and isinstance(a.value, ast.Name):
+                    # a list grown in a statement loop over the task and its ancestors
+                    for n in walk_no_nested(ps.f.node):
+                        if isinstance(n, ast.For) and isinstance(n.target, ast.Name) and \
+                                any(isinstance(x, ast.Attribute) and x.attr in ('all_parents', 'parent') for x in ast.walk(n.iter)):
+                            for x in walk_no_nested(n):
+                                if isinstance(x, ast.Call) and isinstance(x.func, ast.Attribute) and x.func.attr in ('append', 'extend') and \
+                                        isinstance(x.func.value, ast.Name) and x.func.value.id == a.value.id:
+                                    reads = [y for y in ast.walk(x) if isinstance(y, ast.Attribute) and isinstance(y.value, ast.Name) and y.value.id == n.target.id
+                                             and y.attr in ('min_start', 'start', 'end')]
+                                    if reads:
+                                        foreign = (reads[0], n.iter)
+                # (the prerequisite term reads `.end` of other tasks - that is the dependency bound, not a foreign one)
+                if foreign is not None and foreign[0].attr != 'end':
+                    found += 1
+                    o.refute(ps.f, st, a, f"the release day of a leaf also takes `{src(foreign[0])}` of the tasks in `{src(foreign[1])[:50]}` (operand "
+                                          f"`{src(a)[:50]}` of the max): the task inherits a constraint of another task and leaves its resource idle "
+                                          f"until then although its own release day (project start, clock, own min_start, prerequisite ends) has come")
+    if not found:
+        o.site(ps.f, ps.f.node, "no operand of the leaf's release day reads a field of another task")
